@@ -157,6 +157,9 @@ C03_AtomicUpgrade(pre, post, s) ==
       /\ post.store[top].st = "deployed"
       /\ post.store[top].man = pre.store[MaxOf(good)].man
       /\ Match(post.store[top].man, post.cluster)
+      \* "a cluster that matches it": what the failed upgrade itself created and the restored manifest does not
+      \* name is gone again (unless the live object carries the keep policy)
+      /\ \A r \in s.posted : r \in DOMAIN post.store[top].man \/ IsAbsent(post.cluster[r]) \/ post.cluster[r].pol = "keep"
       /\ C01_AtMostOneDeployed(post.store)
 
 C03_AtomicInstall(pre, post, s) ==
